@@ -27,7 +27,10 @@ RULE = ('3 shipped libraries with uncertainty data: exhaustive unit vectors '
         '>=1 temperature, or whose out-of-basis clause was decided; distinct '
         'by (library, mapping).'
         ' Count types: Python int / float, numpy, Fraction; keys as str or '
-        'Group objects. ')
+        'Group objects. '
+        ' '
+        'Rounds 17-18: copies / pickles of estimates with uncertainty; one'
+        ' UQ library / shared estimates from four threads.')
 ASSUMPTIONS = [
     'the RMSE correlation value at T is observed through the public getter '
     '(its own correctness is C05)',
